@@ -326,6 +326,18 @@ class LifeHarness:
         w.stop_raises = self.stop_raises
         w.subscriber_raises = self.subscriber_raises
         s = self.seed
+        if s == "init+sibling":
+            # another connection object of the same client (same ConnectionParams) is in the middle of its own attempt: its TCP
+            # connect is pending (and stays so until its own time-out).  Its socket is kept out of the harness's view.
+            from aioesphomeapi.connection import APIConnection
+
+            sib = APIConnection(w.params, None, False, None)
+            w.sibling = sib  # type: ignore[attr-defined]
+            w.spawn("sibling", sib.start_connection)
+            w.drain()
+            w.net.background = list(w.net.sockets)  # type: ignore[attr-defined]
+            del w.net.sockets[:]
+            return w
         if s == "init":
             return w
         w.spawn("start", w.conn.start_connection)
